@@ -148,7 +148,8 @@ def check_c02(tier):
     # the documented definition must come out in every storage: a disagreement with the specification's
     # value is reported here whichever signature exhibits it (C01 reports the same records as a
     # dependence on the storage)
-    recs = flatten(run, lambda r: r["kind"] in ("C02", "C01") and r["case"]["op"] not in PRED_OPS)
+    # (a stored rho < 0 or phi outside [-pi, pi] of a result is a wrong answer of the rho / phi accessor on that result)
+    recs = flatten(run, lambda r: r["kind"] in ("C02", "C01", "range") and r["case"]["op"] not in PRED_OPS)
     trecs, tsum = trace_records(run, lambda c: c["op"] not in PRED_OPS, 2 if tier == "quick" else 3)
     recs += trecs
     return _finish("C02", tier, run, recs, lambda c: c["op"] not in PRED_OPS, trace=tsum)
